@@ -66,11 +66,19 @@ SEEDS = {
            "a key signature inside a grouped track whose sequence is not the meta target (type-1 files repeating the key in every part)"),
  "C10-b": ("C10", "Bar.__init__: the leading time signature is inserted only when the sequence carries none; an existing matching signature is left where it is",
            "a sequence with exactly one matching time-signature event that is not its first message (at tick 24, or after a note at tick 0)"),
+ "C09-b": ("C09", "quantise_note_lengths: the two candidate filters merged into one loop; the do_not_extend filter became the `elif` of the next-same-pitch-note branch, so shorten-only is enforced only for the last occurrence of a pitch",
+           "quantise_note_lengths=True, a note crossing a bar line whose tail fragment is off the note-value grid with a longer nearest value, and the same pitch struck again later in that bar"),
+ "C18-b": ("C18", "Sequence.set_channel: `self.invalidate_abs()` dropped; a cached absolute view keeps the old channel",
+           "the absolute view cached before set_channel (get_sequence_duration, equals, cutoff, ...) and the result read through an abs-based getter"),
+ "C03-b": ("C03", "tokenise: the reset `cur_bar_has_notes = False` at the end of a bar moved under `if insert_bar_token:`",
+           "insert_bar_token=False and a stateful call containing a note whose last bar ends in silence: the closing clause appends a whole extra bar of rests, later chunks decode one bar late"),
  "C17-a": ("C17", "equals: the tick comparison moved into the NOTE_ON branch; time and key signatures are compared by value only",
            "two sequences identical except for the tick of one signature, with no compared event of the channel between the old and the new tick"),
 }
 
 INITIALLY_MISSED = {
+ "C03-b": "missed by the first version of CLOSE (it only demanded that a bar holding a note is closed); the converse obligation was added: in the state (bar time 0, nothing emitted in the current bar) the closing guard must be definitely false",
+ "C09-b": "missed by the first versions of C09 and C06: NOEXT judged only the innermost test of the removal; the rule now checks the whole path condition from the candidate loop to the removal (nothing but the flag, the positive-correction test and a membership test) and C09 includes the NOEXT / NEXT rules",
  "C04-b": "missed by the first version of C04 (the ABS-SORTED rule only looked at AbsoluteSequence's own methods); the rule now also covers every construction of an AbsoluteSequence from a message list and raw writes to a locally built one's list",
  "C08-b": "missed by the first versions of the C08 rules (Q1 only lost one of its add sites, which is not a violation); the PLACE rule (each message placed exactly once, in the current piece or on the deferred queue, nowhere else) was added",
  "C14-a": "caught from the start by C04 (TS3); C14's own check missed it; VIEW obligations (typestate of the operation's Sequence wrapper) were added to C05-C08, C14, C15, C18",
